@@ -189,7 +189,7 @@ class Recorder:
 # configurations
 # --------------------------------------------------------------------------------------------
 
-def make_fast_config(rng, allow_empty=False, distinct=True):
+def make_fast_config(rng, allow_empty=False, distinct=True, shared_names=False):
     T = rng.choice([1, 2, 2, 3, 4])
     menu = list(FAST_MENU)
     motifs = [rng.choice(menu) for _ in range(T)]
@@ -201,6 +201,11 @@ def make_fast_config(rng, allow_empty=False, distinct=True):
         names = rng.sample(range(T), T)              # integer labels: 0 is a name like any other
     elif r < 0.17:
         names[rng.randrange(T)] = ""                 # so is the empty string
+    elif shared_names and T >= 2 and r < 0.25:
+        # two topologies (two joint-degree columns, each with its own size and builder) carry the SAME edge name: the columns are what
+        # the generator is configured by, a name is only a label
+        i, j = rng.sample(range(T), 2)
+        names[j] = names[i]
     return {"flavour": rng.choice(["fast", "fast", "network"]), "motifs": [list(m) for m in motifs],
             "names": names, "decoy": rng.random() < 0.25, "lib_arg": rng.choice(["list", "list", "list", "tuple", "ndarray"]), "scratch": rng.random() < 0.15,
             "path": rng.choice(["direct", "main-enum", "main-str", "factory"]), "use_library": rng.random() < 0.7}
